@@ -32,11 +32,15 @@ def run_one(sid, meta, budget):
         if r.returncode:
             out["error"] = "patch does not apply: " + (r.stderr + r.stdout)[-200:]
             return out
-        for c in [meta["property"]] + list(meta.get("also_check", [])):
+        # the property's own check first; the checks recorded as "also caught by" only if it misses
+        others = list(meta.get("also_check", [])) + [x["check"] for x in meta.get("check_result", {}).get("also_caught_by", [])]
+        for c in [meta["property"]] + [x for i, x in enumerate(others) if x != meta["property"] and x not in others[:i]]:
+            if c != meta["property"] and out["checks"].get(meta["property"], {}).get("caught"):
+                break
             env = dict(os.environ, CFDPPY_SRC=os.path.join(wt, "src"), VERIF_OUT=os.path.join(d, "out"))
             t0 = time.time()
             cmd = [os.path.join(V, "check"), c, "--tier", "quick"] + (["--budget", str(budget)] if budget else [])
-            r = sh(cmd, env=env, timeout=1800)
+            r = subprocess.run(cmd, capture_output=True, text=True, errors="replace", env=env, timeout=1800)
             lines = [l.strip() for l in r.stdout.splitlines() if l.strip().startswith("clause=")]
             out["checks"][c] = {"rc": r.returncode, "caught": r.returncode == 1, "wall_s": round(time.time() - t0, 1),
                                 "first_clause": lines[0][:300] if lines else None}
@@ -59,12 +63,27 @@ def main():
         row = run_one(sid, meta, budget)
         rows.append(row)
         own = row["checks"].get(meta["property"], {})
-        print(f"{sid}: {'CAUGHT' if own.get('caught') else 'MISSED'} by {meta['property']} {own.get('first_clause') or row.get('error', '')}"[:260], flush=True)
-    doc = {"at_repo_head": sh(["git", "-C", "/repo", "rev-parse", "--short", "HEAD"]).stdout.strip(), "rows": rows,
-           "caught": sum(1 for r in rows if r["checks"].get(r["property"], {}).get("caught")), "total": len(rows)}
+        anyc = [c for c, v in row["checks"].items() if v.get("caught")]
+        row["caught_by"] = anyc
+        if not anyc:
+            row["why_not"] = meta.get("history")
+        print(f"{sid}: {'CAUGHT' if own.get('caught') else ('caught by ' + anyc[0] if anyc else 'MISSED')} {meta['property']} "
+              f"{(row['checks'][anyc[0]].get('first_clause') if anyc else '') or row.get('error', '')}"[:260], flush=True)
+        write(rows)
+    doc = write(rows)
+    print(f"caught by the property's own check {doc['caught']}, by some check {doc['caught_by_some_check']} of {doc['total']}")
+
+
+def write(rows):
+    doc = {"at_repo_head": sh(["git", "-C", "/repo", "rev-parse", "--short", "HEAD"]).stdout.strip(),
+           "budget_s_per_check": os.environ.get("SENS_BUDGET") or "quick default",
+           "caught": sum(1 for r in rows if r["checks"].get(r["property"], {}).get("caught")),
+           "caught_by_some_check": sum(1 for r in rows if r.get("caught_by")),
+           "not_caught": [{"seeded": r["seeded"], "why": r.get("why_not")} for r in rows if not r.get("caught_by")],
+           "total": len(rows), "rows": rows}
     os.makedirs(os.path.join(V, "evidence"), exist_ok=True)
     json.dump(doc, open(os.path.join(V, "evidence", "sensitivity.json"), "w"), indent=1)
-    print(f"caught {doc['caught']} of {doc['total']}")
+    return doc
 
 
 if __name__ == "__main__":
